@@ -146,7 +146,7 @@ def parse_sections(ans):
     for sec in ans.split("|"):
         if sec == "-" or sec == "":
             out.append([])
-        elif sec in ("ginv", "not-ginv", "no-pinv"):
+        elif sec in ("ginv", "not-ginv", "no-pinv", "pinv", "not-pinv", "keyerror", "indexerror"):
             out.append(sec)
         else:
             out.append([_tok(t) for row in sec.split(";") for t in row.split(",") if t != "-"])
@@ -175,7 +175,7 @@ def net_request(A, directed, w, perm):
 
 
 def impl_net(pnet, directed, connected):
-    """the 22 sections of `netRelabelled`, `None` where the implementation's notion differs
+    """the 23 sections of `netRelabelled`, `None` where the implementation's notion differs
     (undirected notions on directed networks, closeness on unconnected ones)"""
     und = not directed
     n = pnet.N
@@ -194,7 +194,9 @@ def impl_net(pnet, directed, connected):
            attempt(pnet.nsi_closeness) if und else None,
            attempt(pnet.coreness),
            attempt(pnet.nsi_indegree), attempt(pnet.nsi_outdegree), attempt(pnet.nsi_degree),
-           attempt(pnet.nsi_local_clustering) if und else None]
+           attempt(pnet.nsi_local_clustering) if und else None,
+           # round 4: the loop over the edge list (ZeroDivisionError -> not compared)
+           attempt(pnet.assortativity) if und and pnet.n_links > 0 else None]
     return sec
 
 
@@ -221,7 +223,11 @@ def impl_cross(A, w, L1, L2, perm):
             attempt(b.nsi_cross_transitivity, P1, P2), attempt(b.nsi_cross_mean_degree, P1, P2),
             attempt(b.nsi_cross_edge_density, P1, P2),
             attempt(b.nsi_cross_global_clustering, P1, P2),
-            attempt(b.nsi_cross_closeness_centrality, P1, P2)]
+            attempt(b.nsi_cross_closeness_centrality, P1, P2),
+            # round 4: the `_sparse` twins
+            attempt(b.cross_transitivity_sparse, P1, P2),
+            attempt(b.cross_local_clustering_sparse, P1, P2),
+            attempt(b.cross_global_clustering_sparse, P1, P2)]
 
 
 def res_request(A, R, perm):
@@ -241,7 +247,9 @@ def impl_res(R, perm):
             attempt(b.average_neighbors_admittive_degree), attempt(b.local_admittive_clustering),
             attempt(b.global_admittive_clustering), None,
             [float(quiet(b.vertex_current_flow_betweenness, i)) for i in range(n)],
-            attempt(b.edge_current_flow_betweenness)]
+            attempt(b.edge_current_flow_betweenness),
+            # round 4: maximum of the triangular store; hypotheses of res_currentflow_relabel_pinv
+            attempt(b.diameter_effective_resistance), "pinv"]
 
 
 def geo_request(A, directed, pos, D, perm):
@@ -262,6 +270,31 @@ def impl_geo(psn):
 def rec_request(x, metric, thr, perm):
     emb = ";".join(",".join(enc_rat(Fraction(float(v))) for v in row) for row in x)
     return f"rec {','.join(map(str, perm))} {metric} {enc_rat(Fraction(float(thr)))} 0 {emb}"
+
+
+def lattr_request(directed, n, links, W, perm):
+    Wq = [[Fraction(float(x)) for x in row] for row in W]
+    return (f"lattr {','.join(map(str, perm))} {int(directed)} {n} "
+            f"{','.join(f'{i}-{j}' for i, j in links) or '-'} {enc_ratmat(Wq)}")
+
+
+def enc_emb(x):
+    return ";".join(",".join(enc_rat(Fraction(float(v))) for v in row) for row in x)
+
+
+def recrate_request(x, metric, k, local, perm):
+    return f"recrate {','.join(map(str, perm))} {metric} {k} {int(local)} {enc_emb(x)}"
+
+
+def recjoint_request(x, y, metric, tx, ty, perm):
+    return (f"recjoint {','.join(map(str, perm))} {metric} {enc_rat(Fraction(float(tx)))} "
+            f"{enc_rat(Fraction(float(ty)))} {enc_emb(x)} {enc_emb(y)}")
+
+
+def recisrn_request(x, y, metric, tx, ty, txy, px, py):
+    return (f"recisrn {','.join(map(str, px))} {','.join(map(str, py))} {metric} "
+            f"{enc_rat(Fraction(float(tx)))} {enc_rat(Fraction(float(ty)))} "
+            f"{enc_rat(Fraction(float(txy)))} {enc_emb(x)} {enc_emb(y)}")
 
 
 def compare_sections(kind, ans, impl, tol):
@@ -400,21 +433,27 @@ def arg_variants(cls, name):
     return out
 
 
-def equivariance(ctx, cname, make, perm, measures, n, replay_base, variants=False):
+def equivariance(ctx, cname, make, perm, measures, n, replay_base, variants=False,
+                 extra_calls=(), via=""):
     """compare every zero-argument measure of the object (with `variants`: also every
-    non-default call pattern of `arg_variants`) with that of its permuted twin"""
+    non-default call pattern of `arg_variants`; `extra_calls`: further (name, args, kwargs)
+    calls) with that of its permuted twin.  `via` names the construction path of the twin."""
     net, pnet = make(None), make(perm)
     directed_extra = net.directed
     # grid distances are float32 computations: summation order matters at 1e-7
     rtol = 1e-7 if cname in ("Network", "RecurrenceNetwork", "JointRecurrenceNetwork",
                              "InterSystemRecurrenceNetwork") else 2e-5
     if variants:
-        calls = [(m, kw) for m in measures for kw in [{}] + arg_variants(type(net), m)]
+        calls = [(m, (), kw) for m in measures for kw in [{}] + arg_variants(type(net), m)]
     else:
-        calls = [(m, {}) for m in measures]
-    for m, kw in calls:
-        shown = m if not kw else f"{m}({', '.join(f'{k}={v!r}' for k, v in kw.items())})"
-        if "w" in kw.values() and net.n_links == 0:
+        calls = [(m, (), {}) for m in measures]
+    calls += list(extra_calls)
+    tag = f" [twin built via {via}]" if via else ""
+    for m, args, kw in calls:
+        shown = m if not (kw or args) else \
+            f"{m}({', '.join([repr(a) for a in args] + [f'{k}={v!r}' for k, v in kw.items()])})"
+        shown += tag
+        if ("w" in kw.values() or "w" in args) and net.n_links == 0:
             continue
         if kw.get("parallelize"):
             # each call forks a process pool (seconds on a loaded machine): a bounded number of
@@ -427,7 +466,7 @@ def equivariance(ctx, cname, make, perm, measures, n, replay_base, variants=Fals
                 continue
             ctx._pool_calls_left = left - 1
         try:
-            v = quiet(getattr(net, m), **kw)
+            v = quiet(getattr(net, m), *args, **kw)
         except Exception:  # noqa
             ctx.count(f"{cname}:raises")
             continue
@@ -436,25 +475,336 @@ def equivariance(ctx, cname, make, perm, measures, n, replay_base, variants=Fals
             ctx.count(f"{cname}:shape-not-judged")
             continue
         try:
-            got = quiet(getattr(pnet, m), **kw)
+            got = quiet(getattr(pnet, m), *args, **kw)
         except Exception as ex:  # noqa
             ctx.fail({"kind": "raises-on-permuted", "class": cname, "measure": m},
                      f"{cname}.{shown} raises {type(ex).__name__} on the permuted network only",
-                     dict(replay_base, measure=m, kwargs=kw, permutation=list(perm)))
+                     dict(replay_base, measure=m, args=list(args), kwargs=kw,
+                          permutation=list(perm)))
             continue
-        ctx.count(f"{cname}:measures-compared" + (":non-default-args" if kw else ""))
+        ctx.count(f"{cname}:measures-compared" + (":non-default-args" if kw or args else "")
+                  + (f":via-{via}" if via else ""))
         if not same_val(exp, got, rtol):
-            r = dict(replay_base, measure=m, kwargs=kw, permutation=list(perm))
+            r = dict(replay_base, measure=m, args=list(args), kwargs=kw, permutation=list(perm))
             try:
                 r.update(expected=np.asarray(exp, dtype=float).round(6).tolist(),
                          observed=np.asarray(got, dtype=float).round(6).tolist())
             except Exception:  # noqa
                 pass
-            ctx.fail({"kind": "not-equivariant", "class": cname, "measure": m,
-                      "input_class": "directed" if directed_extra and m not in DIRECTED_OK
-                      else "any"},
-                     f"{cname}.{shown} on permuted_copy({list(perm)}) is not the permuted result",
-                     r)
+            sig = {"kind": "not-equivariant", "class": cname, "measure": m,
+                   "input_class": "directed" if directed_extra and m not in DIRECTED_OK
+                   else "any"}
+            if via:
+                # the twin came through another construction path than the reference
+                sig["via"] = "injected-graph" if via.startswith(("FromIGraph", "Load")) or \
+                    via.endswith(".Load") else "constructor"
+            ctx.fail(sig, f"{cname}.{shown} on permuted_copy({list(perm)}) is not the permuted "
+                     f"result", r)
+
+
+# ---------------------------------------------------------------------------------------
+# round 4: every construction path, link attributes set AFTER construction
+# ---------------------------------------------------------------------------------------
+
+def weighted_calls(cls):
+    """every public query that reads a link / node attribute: measures with an optional
+    `link_attribute` / `key` argument called with the attribute "w", and the attribute getters
+    (`link_attribute("w")`, `average_link_attribute("w")`, `node_attribute("a")`, ...)"""
+    out = []
+    for name in sorted(dir(cls)):
+        if name.startswith("_") or name.startswith(("set_", "del_")) or name == "pagerank":
+            continue
+        fn = getattr(cls, name)
+        if not callable(fn) or isinstance(inspect.getattr_static(cls, name),
+                                          (staticmethod, classmethod)):
+            continue
+        try:
+            params = list(inspect.signature(fn).parameters.values())[1:]
+        except (TypeError, ValueError):
+            continue
+        required = [p for p in params if p.default is inspect.Parameter.empty
+                    and p.kind in (p.POSITIONAL_ONLY, p.POSITIONAL_OR_KEYWORD)]
+        if len(required) == 1 and required[0].name == "attribute_name":
+            out.append((name, ("a" if "node" in name else "w",), {}))
+        elif not required:
+            for p in params:
+                if p.default is None and p.name in ("link_attribute", "key"):
+                    out.append((name, (), {p.name: "w"}))
+    return out
+
+
+def shuffled_links(Ap, directed, rng, both=False):
+    """the links of the adjacency matrix in random order; undirected links once, in a random
+    orientation (`both`: in both orientations, as `edge_list()` returns them)"""
+    n = Ap.shape[0]
+    E = [(i, j) for i in range(n) for j in range(n) if Ap[i, j] and (directed or i < j)]
+    if not directed:
+        E = [(j, i) if rng.random() < 0.5 else (i, j) for i, j in E]
+        if both:
+            E = E + [(j, i) for i, j in E]
+    rng.shuffle(E)
+    return [(int(i), int(j)) for i, j in E]
+
+
+CONSTRUCTION_PATHS = ("dense_float32_fortran", "dense_bool_strided_view", "edge_list", "edge_list_both_orientations", "set_edge_list", "sparse_coo",
+                      "sparse_csr", "sparse_lil", "adjacency_setter", "FromIGraph",
+                      "FromIGraph_attribute_in_graph", "FromIGraph_copy", "FromIGraph_permuted_copy",
+                      "FromIGraph_history", "Load_graphml", "Load_graphml_attribute_in_file",
+                      "Load_edgelist", "Load_pickle")
+SPATIAL_PATHS = ("SpatialNetwork.Load", "GeoNetwork.Load")
+
+
+def build_via(path, Ap, directed, wp, Wp, ap, rng, tmpdir, grid=None, A0=None, W0=None,
+              w0=None, a0=None, perm=None):
+    """the network with adjacency `Ap`, node weights `wp`, link attribute "w" = `Wp` and node
+    attribute "a" = `ap`, built through the construction path `path` from links listed in
+    random order; the link attribute is set after construction (unless the path says that the
+    attribute travels with the graph / file).  -> (network, list of links as handed over)"""
+    import igraph
+    import scipy.sparse as sp
+    from pyunicorn.core import Network, SpatialNetwork, GeoNetwork
+    n = Ap.shape[0]
+    E = shuffled_links(Ap, directed, rng, both=(path == "edge_list_both_orientations"))
+    set_after = True
+
+    def graph(edges, W=None, w=None):
+        g = igraph.Graph(n=n, edges=edges, directed=directed)
+        if w is not None:
+            g.vs["node_weight_nsi"] = [float(x) for x in w]
+        if W is not None:
+            g.es["w"] = [float(W[e]) for e in edges]
+        return g
+    if path == "dense_float32_fortran":
+        # caller arrays in the other float width and memory layout (values are dyadic: exact)
+        net = Network(adjacency=np.asfortranarray(Ap.astype(np.float32)), directed=directed,
+                      node_weights=wp.astype(np.float32), silence_level=3)
+        net.set_link_attribute("w", np.asfortranarray(Wp.astype(np.float32)))
+        set_after = False
+    elif path == "dense_bool_strided_view":
+        big = np.zeros((2 * n, 3 * n), dtype=bool)
+        big[::2, ::3] = Ap.astype(bool)
+        bigw = np.zeros(2 * n)
+        bigw[::2] = wp
+        bigW = np.zeros((n, 2 * n))
+        bigW[:, 1::2] = Wp
+        net = Network(adjacency=big[::2, ::3], directed=directed, node_weights=bigw[::2],
+                      silence_level=3)
+        net.set_link_attribute("w", bigW[:, 1::2])
+        set_after = False
+    elif path in ("edge_list", "edge_list_both_orientations"):
+        net = Network(edge_list=E, n_nodes=n, directed=directed, node_weights=wp, silence_level=3)
+    elif path == "set_edge_list":
+        net = Network(adjacency=np.zeros((n, n), dtype=int), directed=directed, node_weights=wp,
+                      silence_level=3)
+        net.set_edge_list(E, n)
+    elif path.startswith("sparse_"):
+        F = E if directed else E + [(j, i) for i, j in E]
+        rng.shuffle(F)
+        M = sp.coo_matrix((np.ones(len(F), dtype=rng.choice([np.int8, np.int64, np.float64, bool])),
+                           ([e[0] for e in F], [e[1] for e in F])), shape=(n, n))
+        M = {"sparse_coo": M, "sparse_csr": M.tocsr(), "sparse_lil": M.tolil()}[path]
+        net = Network(adjacency=M, directed=directed, node_weights=wp, silence_level=3)
+    elif path == "adjacency_setter":
+        other = 1 - Ap - np.eye(n, dtype=int)
+        net = Network(adjacency=other if not directed else other.T, directed=directed,
+                      node_weights=wp, silence_level=3)
+        net.set_link_attribute("w", np.ones((n, n)))
+        net.adjacency = Ap
+    elif path == "FromIGraph":
+        net = Network.FromIGraph(graph(E, w=wp), silence_level=3)
+    elif path == "FromIGraph_attribute_in_graph":
+        net = Network.FromIGraph(graph(E, W=Wp, w=wp), silence_level=3)
+        set_after = False
+    elif path == "FromIGraph_copy":
+        net = Network.FromIGraph(graph(E, W=Wp, w=wp), silence_level=3).copy()
+        set_after = False
+    elif path == "FromIGraph_permuted_copy":
+        # the *original* numbering through FromIGraph, then the library's own renumbering
+        E = shuffled_links(A0, directed, rng)
+        g = igraph.Graph(n=n, edges=E, directed=directed)
+        g.vs["node_weight_nsi"] = [float(x) for x in w0]
+        net = Network.FromIGraph(g, silence_level=3)
+        net.set_link_attribute("w", W0)
+        net = net.permuted_copy(list(perm))
+    elif path == "FromIGraph_history":
+        # an attribute set, overwritten, deleted and set again on an injected graph
+        net = Network.FromIGraph(graph(E, W=Wp.T * 3 + 1, w=wp), silence_level=3)
+        net.set_link_attribute("w", Wp * 2 + 5)
+        quiet(net.link_attribute, "w")
+        net.set_link_attribute("v", Wp + 1)
+        net.del_link_attribute("w")
+    elif path in ("Load_graphml", "Load_graphml_attribute_in_file", "Load_pickle"):
+        infile = path == "Load_graphml_attribute_in_file"
+        g = graph(E, W=Wp if infile else None, w=wp)
+        fmt = "pickle" if path == "Load_pickle" else "graphml"
+        fn = f"{tmpdir}/net.{fmt}"
+        g.write(fn, format=fmt)
+        net = Network.Load(fn, fileformat=fmt, silence_level=3)
+        set_after = not infile
+    elif path == "Load_edgelist":
+        # a plain edge-list file infers the number of nodes from the largest number used
+        if not (Ap[n - 1].any() or Ap[:, n - 1].any()):
+            return None, E
+        fn = f"{tmpdir}/net.edges"
+        with open(fn, "w") as f:
+            f.writelines(f"{i} {j}\n" for i, j in E)
+        net = Network.Load(fn, fileformat="edgelist", silence_level=3, directed=directed)
+        net.node_weights = wp
+    elif path in SPATIAL_PATHS:
+        cls = SpatialNetwork if path == "SpatialNetwork.Load" else GeoNetwork
+        g = graph(E, w=wp)
+        fn, fg = f"{tmpdir}/snet.graphml", f"{tmpdir}/grid.pickle"
+        g.write(fn, format="graphml")
+        grid.save(fg)
+        net = quiet(cls.Load, (fn, fg), fileformat="graphml", silence_level=3)
+    else:
+        raise ValueError(path)
+    if set_after:
+        net.set_link_attribute("w", Wp)
+    net.set_node_attribute("a", [float(x) for x in ap])
+    return net, E
+
+
+HUB_MEASURES = ("degree", "indegree", "outdegree", "bildegree", "local_clustering",
+                "local_cyclemotif_clustering", "local_midmotif_clustering",
+                "local_inmotif_clustering", "local_outmotif_clustering", "matching_index",
+                "nsi_degree", "nsi_local_clustering", "max_neighbors_degree",
+                "nsi_average_neighbors_degree", "nsi_max_neighbors_degree", "transitivity",
+                "global_clustering", "nsi_transitivity", "nsi_local_soffer_clustering", "coreness",
+                "betweenness", "closeness", "nsi_closeness", "path_lengths", "assortativity",
+                "link_betweenness", "nsi_local_cyclemotif_clustering", "laplacian", "diameter",
+                "average_path_length", "global_efficiency", "nsi_global_efficiency")
+
+
+def hub_network(ctx, meas):
+    """round 4: hubs of degree beyond 181 (k(k-1) leaves int16, the dtype of `sp_A`) — the sums
+    and matrix products over the adjacency matrix must not depend on where the hub is numbered"""
+    from pyunicorn.core import Network
+    rng = ctx.rng
+    n = rng.choice([190, 230, 260])
+    hub_seed = rng.randrange(10 ** 6)
+    import random as _random
+    r = _random.Random(hub_seed)
+    A = np.zeros((n, n), dtype=int)
+    h1, h2 = r.sample(range(n), 2)
+    for j in range(n):
+        if j != h1:
+            A[h1, j] = A[j, h1] = 1
+        if j != h2 and r.random() < 0.85:
+            A[h2, j] = A[j, h2] = 1
+    for i in range(n):
+        for j in range(i):
+            if r.random() < 0.04:
+                A[i, j] = A[j, i] = 1
+    w = np.array([r.choice([0.5, 1.0, 2.0, 3.0]) for _ in range(n)])
+    W = np.zeros((n, n))
+    for i in range(n):
+        for j in range(i):
+            if A[i, j]:
+                W[i, j] = W[j, i] = r.choice([0.5, 1.0, 2.0, 4.0])
+    perm = list(range(n))
+    r.shuffle(perm)
+
+    def mk(p):
+        idx = np.arange(n) if p is None else np.array(p)
+        net = Network(adjacency=A[idx][:, idx], node_weights=w[idx], silence_level=3)
+        net.set_link_attribute("w", W[idx][:, idx])
+        return net
+    ctx.case(("hub", n, hub_seed), True)
+    ctx.count("hub-network:n=%d" % n)
+    equivariance(ctx, "Network", mk, perm, [m for m in HUB_MEASURES if m in meas["Network"]], n,
+                 {"hub_network": True, "n": n, "hub_seed": hub_seed, "hubs": [h1, h2],
+                  "generator": "harness/c04.py:hub_network"},
+                 extra_calls=[c for c in weighted_calls(Network)
+                              if c[0] not in ("local_vulnerability", "node_attribute")])
+
+
+def construction_paths(ctx, A, directed, w, W, pos, lat, lon, perm, base, meas, full, reqs, meta):
+    """round 4 (seeded change C04-6): the reference network is built from the dense adjacency
+    matrix in the original numbering; its renumbered twin is built through *every other*
+    construction path from links listed in random order (edge lists, sparse matrices, injected
+    igraph graphs, files), and only then given its link attribute.  Every query that reads the
+    attribute, and (on the paths that inject a foreign graph object) every other measure, must
+    be the renumbered result."""
+    import shutil
+    import tempfile
+    from pyunicorn.core import Network, SpatialNetwork, GeoNetwork, GeoGrid, Grid
+    rng = ctx.rng
+    n = A.shape[0]
+    idx = np.array(perm)
+    a = np.array([rng.choice([-1.5, 0.25, 2.0, 7.0]) + i for i in range(n)])
+    Ap, wp, Wp, ap = A[idx][:, idx], w[idx], W[idx][:, idx], a[idx]
+    tmpdir = tempfile.mkdtemp(prefix="C04-paths-")
+
+    def reference(cls=Network, grid=None):
+        kw = {} if grid is None else {"grid": grid}
+        net = cls(adjacency=A, directed=directed, silence_level=3, **kw)
+        net.node_weights = w
+        net.set_link_attribute("w", W)
+        net.set_node_attribute("a", [float(x) for x in a])
+        return net
+    try:
+        wcalls = weighted_calls(Network)
+        for path in CONSTRUCTION_PATHS:
+            handed = {}
+
+            def make(p, path=path):
+                if p is None:
+                    return reference()
+                net, E = build_via(path, Ap, directed, wp, Wp, ap, rng, tmpdir, A0=A, W0=W, w0=w,
+                                   a0=a, perm=perm)
+                handed["links"] = E
+                return net
+            probe = make(perm)
+            if probe is None:
+                ctx.count(f"path:{path}:not-applicable")
+                continue
+            if path != "FromIGraph_history":
+                # tie of `linkattr_relabel`: C05's model of set_link_attribute / link_attribute
+                # run on the links *as the twin's embedded graph object lists them*
+                reqs.append(lattr_request(directed, n, probe.graph.get_edgelist(), W, perm))
+                meta.append(("lattr", f"path:{path}", tuple(perm),
+                             [flat(quiet(probe.link_attribute, "w"))]))
+            calls = [(m, ar, {k: ("v" if path == "FromIGraph_history" else v) for k, v in kw.items()})
+                     for m, ar, kw in wcalls]
+            if path == "FromIGraph_history":
+                calls = [(m, tuple("v" if x == "w" else x for x in ar), kw) for m, ar, kw in calls]
+
+                def make(p, path=path, inner=make):        # noqa: F811
+                    net = inner(p)
+                    if p is None:
+                        net.set_link_attribute("v", W + 1)
+                    return net
+            injected = path.startswith(("FromIGraph", "Load"))
+            ctx.count(f"path:{path}")
+            equivariance(ctx, "Network", make, perm,
+                         meas["Network"] if (injected and full) else [], n,
+                         dict(base, construction_path=path, links_as_handed_over=handed.get("links"),
+                              link_attribute=W.tolist()),
+                         extra_calls=calls, via=path)
+        if full:
+            for path in SPATIAL_PATHS:
+                if path == "SpatialNetwork.Load":
+                    cls, own = SpatialNetwork, [m for m in meas["SpatialNetwork"]
+                                                if m not in meas["Network"]]
+                    g0 = Grid(np.arange(3.), pos.T, silence_level=3)
+                    g1 = Grid(np.arange(3.), pos[idx].T, silence_level=3)
+                else:
+                    cls, own = GeoNetwork, [m for m in meas["GeoNetwork"]
+                                            if m not in meas["SpatialNetwork"]]
+                    g0 = GeoGrid(np.arange(3.), lat, lon, silence_level=3)
+                    g1 = GeoGrid(np.arange(3.), lat[idx], lon[idx], silence_level=3)
+
+                def make(p, path=path, cls=cls, g0=g0, g1=g1):
+                    if p is None:
+                        return reference(cls, g0)
+                    return build_via(path, Ap, directed, wp, Wp, ap, rng, tmpdir, grid=g1)[0]
+                ctx.count(f"path:{path}")
+                equivariance(ctx, cls.__name__, make, perm, own, n,
+                             dict(base, construction_path=path, link_attribute=W.tolist()),
+                             variants=True, extra_calls=weighted_calls(cls), via=path)
+    finally:
+        shutil.rmtree(tmpdir, ignore_errors=True)
 
 
 def run(ctx):
@@ -465,7 +815,9 @@ def run(ctx):
     ctx.rule = ("graphs: labelled undirected n<=4 (all), directed n<=3, random up to 9 (thorough 14) "
                 "nodes, with weights, a link attribute, coordinates and a bipartition; permutations: "
                 "all n! for n<=4 (thorough 5), 3 (8) random beyond; distinct = distinct (class, graph, "
-                "permutation); non-trivial = permutation is not the identity and the graph has a link")
+                "permutation); non-trivial = permutation is not the identity and the graph has a link; "
+                "round 4: renumbered twins built through 20 construction paths from links in random "
+                "order (attributes set afterwards), hub networks (degree 189..259) of 190..260 nodes")
     ctx.proofs()
     meas = {c.__name__: zero_arg_measures(c) for c in
             (Network, SpatialNetwork, GeoNetwork, ResNetwork)}
@@ -600,6 +952,11 @@ def run(ctx):
                 equivariance(ctx, "GeoNetwork", mk_geo, perm,
                              [m for m in meas["GeoNetwork"] if m not in meas["SpatialNetwork"]], n,
                              dict(base, lat=lat.tolist(), lon=lon.tolist()), variants=True)
+            # round 4: every construction path, attributes set after construction
+            # (a bounded share of the pairs: ~1 500 calls per pair when every measure is compared)
+            if A.sum() > 0 and rng.random() < ((1.0 if n >= 5 else 0.15) if quick else 0.12):
+                construction_paths(ctx, A, directed, w, W, pos, lat, lon, perm, base, meas,
+                                   rng.random() < 0.34, reqs, meta)
             # node-list arguments are renumbered with the network
             if not directed and n >= 3:
                 interacting(ctx, A, w, W, g0, perm, base)
@@ -608,10 +965,12 @@ def run(ctx):
                 if n <= 8:
                     reqs.append(res_request(A, Rres, perm))
                     meta.append(("res", gi, perm, impl_res(Rres, perm)))
+    for _ in range(1 if quick else 4):
+        hub_network(ctx, meas)
     timeseries_networks(ctx, reqs, meta)
     model = common.driver(ctx.pid, reqs)
     bad_rel, bad_eval, nvals = [], [], 0
-    TOL = {"net": 1e-9, "cross": 1e-9, "res": 1e-6, "geo": 1e-5, "rec": 0.0}
+    TOL = {"net": 1e-9, "cross": 1e-9, "res": 1e-6, "geo": 1e-5, "rec": 0.0, "lattr": 0.0}
     r3_vals = {k: 0 for k in TOL}
     r3_bad = {k: [] for k in TOL}
     for ans, (kind, gi, perm, impl) in zip(model, meta):
@@ -647,14 +1006,17 @@ def run(ctx):
                    "\n".join(bad_eval[:8]))
     ctx.extra["values_compared"] = nvals
     names = {"net": "C03 model `Net` (degrees, motif clustering, matching index, BFS distances, path "
-                    "measures, coreness peeling, n.s.i. degree / clustering / closeness)",
+                    "measures, coreness peeling, n.s.i. degree / clustering / closeness, assortativity)",
              "cross": "C11 model `Cross` (cross / internal measures with node lists renumbered by "
                       "`Relabel.nodes`)",
              "res": "C18 model `Circuit` (effective resistance via certified pseudo-inverses, closeness, "
                     "average, admittive degree / clustering; `isGinv` hypothesis of res_effRes_relabel)",
              "geo": "C12 model `Geo` (squared grid distances of renumbered coordinates, link-distance "
                     "measures)",
-             "rec": "C07 model `Recurrence` (recurrence-network adjacency of reordered state vectors)"}
+             "rec": "C07 model `Recurrence` (recurrence-network adjacency of reordered state vectors: fixed "
+                    "threshold, fixed global / local recurrence rate, joint, inter-system)",
+             "lattr": "C05 model `Repr` (set_link_attribute then link_attribute on the links in the "
+                      "order the twin's embedded igraph object lists them, every construction path)"}
     for k in TOL:
         ctx.obligation(f"correspondence: {names[k]} on the renumbered input == implementation on the "
                        f"renumbered object ({r3_vals[k]} values)", "correspondence", not r3_bad[k],
@@ -732,6 +1094,22 @@ def timeseries_networks(ctx, reqs, meta):
             idx = np.arange(n) if p is None else np.array(p)
             return RecurrenceNetwork(x[idx], metric=metric, local_recurrence_rate=rate,
                                      silence_level=3)
+        # round 4: C07's models of the rate thresholds, of the joint product and of the
+        # inter-system assembly on the reordered state vectors == the implementation
+        # (`rec_fixedRate_relabel`, `rec_localRate_relabel`, `rec_joint_relabel`,
+        # `rec_intersystem_relabel`); the order-statistic indices are computed as the source does
+        reqs.append(recrate_request(x, metric, int(rate * (n * n - 1)), False, perm))
+        meta.append(("rec", f"ts{rep}:rate", tuple(perm),
+                     [flat(np.asarray(mk_rn_rr(perm).adjacency, dtype=float))]))
+        reqs.append(recrate_request(x, metric, int(rate * (n - 1)), True, perm))
+        meta.append(("rec", f"ts{rep}:local-rate", tuple(perm),
+                     [flat(np.asarray(mk_rn_lrr(perm).adjacency, dtype=float))]))
+        reqs.append(recjoint_request(x, y, metric, thr, thr + 0.5, perm))
+        meta.append(("rec", f"ts{rep}:joint", tuple(perm),
+                     [flat(np.asarray(mk_jrn(perm).adjacency, dtype=float))]))
+        reqs.append(recisrn_request(x, z, metric, thr, thr, thr + 0.5, perm, pz))
+        meta.append(("rec", f"ts{rep}:inter-system", tuple(perm + [n + k for k in pz]),
+                     [flat(np.asarray(mk_isrn(perm).adjacency, dtype=float))]))
         equivariance(ctx, "RecurrenceNetwork", mk_rn_rr, perm,
                      own(RecurrenceNetwork, RecurrencePlot), n,
                      dict(base, cls="RecurrenceNetwork", recurrence_rate=rate))
